@@ -86,7 +86,15 @@ def run(chk):
     if len(pre) == 1:
         expect(chk, "R-PSEUDO", c + ".S_a(before PGA substitution)", pre[0].args[2], deg={T: -2, R: 1}, loc=pre[0].loc, atoms=(R, T))
     else:
-        expect(chk, "R-PSEUDO", c + ".S_a", item(r.ret, 2), deg={T: -2, R: 1}, loc=r.fi.loc(), atoms=(R, T))
+        # the substitution made in place (np.copyto(S_a, PGA, where=...), np.putmask, a masked store): the value before it is not a separate
+        # operand any more and the returned S_a is legitimately not homogeneous in T -- not located
+        inplace_ = [e for e in r.events("lib-call") if e.name in ("numpy.copyto", "numpy.putmask", "numpy.place")] + \
+                   [e for e in r.events("mutation") if e.how == "subscript-store" and e.index is not None and e.index.kind == K_ARRAY and e.index.dtype == "bool"]
+        if inplace_:
+            chk.ob("R-PSEUDO", c + ".S_a", "pseudo S_a before the PGA substitution has degree -2 in T", False,
+                   derived="the substitution is made in place (%s)" % (getattr(inplace_[0], "name", None) or "masked store"), loc=inplace_[0].loc, inconclusive=True)
+        else:
+            expect(chk, "R-PSEUDO", c + ".S_a", item(r.ret, 2), deg={T: -2, R: 1}, loc=r.fi.loc(), atoms=(R, T))
     expect(chk, "R-PSEUDO", c + ".S_d", item(r.ret, 0), deg={T: 0, R: 1}, loc=r.fi.loc(), atoms=(R, T))
     w_branch_rule(chk, P.fn(PSEUDO))
     # ------------------------------------------------------------------ R-CUT
@@ -356,7 +364,7 @@ def pair_rule(chk, setup):
         ok = "sel:max" in dec[0].right.tags and "sel:max" not in dec[0].left.tags and "attr:_dt" in dec[0].left.tags
     chk.ob("R-PAIR", c + "[decision]", "interpolate exactly when target_dt < dt (strict)", ok,
            derived="%s" % [(e.op, "target on left" if "sel:max" in e.left.tags else "target on right") for e in dec],
-           loc=dec[0].loc if dec else fi.loc())
+           loc=dec[0].loc if dec else fi.loc(), inconclusive=not dec)      # the larger of the two steps chosen without max(): not located
     # target_dt = max(T_min / 20, dt / min_dt_ratio), T_min = first non-zero period: decided on the structure, whatever the locals are called
     norm = straightline_env(fi.node.body, Normaliser(), exclude=set(fi.params))
     maxes = [n for n in ast.walk(fi.node) if isinstance(n, ast.Call) and ast.unparse(n.func) in ("max", "np.maximum", "numpy.maximum")
